@@ -1022,6 +1022,18 @@ def rule_guard_count(ctx):
         if not outer:
             outer = [e for e in p.events if _cmp_cell(e, "Local.guard_count", "Eq", 1)]
         is_outer = bool(outer) and outer[-1].value == 1
+        # ... and the test that decides the clear must look at a count read after the collection too: the count written
+        # back may be right while the thread is unpinned on the word of the value read on entry
+        ci = [i for i, e in enumerate(p.events) if e.kind == "call" and e.target == COLLECT]
+        if outer and ci and clears:
+            gi = [i for i, e in enumerate(p.events) if e.kind == "call" and e.result == outer[-1].term[2]]
+            fresh_test = bool(gi) and gi[0] > ci[-1]
+            r.instance("unpin: the outermost test that clears Local.epoch reads the count after the collection", fresh_test)
+            if not fresh_test:
+                r.violate(UNPIN, "stale-outermost", "unpin decides to clear the local epoch on the guard count it read before "
+                          "running the collection: a guard that a destructor created during the collection and that is still "
+                          "alive keeps the count above zero, yet the thread is published as unpinned and `pin` will not "
+                          "publish an epoch again while that guard lives", clears[0][1].loc())
         ok = (len(clears) == 1) == is_outer and (not clears or clears[0][0] > p.events.index(sets[0]) if sets else False)
         r.instance("unpin: Local.epoch cleared iff outermost (outermost=%s)" % is_outer, ok)
         if not ok:
